@@ -81,7 +81,24 @@ def run(seed, tier, lean) -> Result:
     for i in range(n):
         r = random.Random(rnd.getrandbits(48))
         spec = LangGen(r).gen()
-        cases.append((spec, gen_model(r, spec, colon_names=(i % 3 == 0))))
+        inst = gen_model(r, spec, colon_names=(i % 3 == 0))
+        if i % 3 == 1:
+            # names that collide after automatic renaming, unnamed assets, names that look like generated ones
+            pool = ['A', 'A', 'A:2', None, None]
+            for a in inst['assets']:
+                other = r.choice(inst['assets'])
+                a['name'] = r.choice(pool + [f"{other['type']}:{other['id']}", f"A:{other['id']}"])
+        cases.append((spec, inst))
+    # the real model decides the final names (renaming); read them back before asking the Lean model
+    from ..langgen import build_lang, build_model
+    for spec, inst in cases:
+        if any(a['name'] is None or a['name'].startswith(('A', 'T')) for a in inst['assets']):
+            try:
+                _, fac = build_lang(spec); _, byid = build_model(fac, inst)
+                for a in inst['assets']: a['name'] = str(byid[a['id']].name)
+            except Exception:
+                for a in inst['assets']:
+                    if a['name'] is None: a['name'] = f"{a['type']}:{a['id']}"
     model = None
     if lean['build_ok']:
         model = run_driver([{'op': 'gen', 'case': i, 'lang': lang_payload(s), 'inst': inst_payload(m)} for i, (s, m) in enumerate(cases)])
